@@ -3253,6 +3253,13 @@ static int expand_define () {
           args[0] = q;
           for (n = 0; n < NARGS;)
             {
+              /* one round stores at most two bytes, some of them (argument separators, '#', '\\')
+               * without any other test */
+              if (q >= expbuf + DEFMAX - 5)
+                {
+                  lexerror ("Macro argument overflow");
+                  return 0;
+                }
               switch (c)
                 {
                 case '"':
